@@ -77,9 +77,10 @@ def WF.imports (inp : Input) : Bool :=
   -- X: candidates of different packages at different levels differ
   (P.all fun p => P.all fun q => p.1 = q.1 ||
     lv.all fun l => lv.all fun l' => l = l' || uniqueName p.1 l ≠ uniqueName q.1 l') &&
-  -- Q: a candidate of level ≥ 1 is nobody else's initial qualifier
+  -- Q: a candidate of level ≥ 1 is nobody else's initial qualifier (levels beyond a path's depth
+  -- repeat its last candidate: a one-component path such as `sync` has level-0 candidates only)
   (P.all fun p => P.all fun q => p.1 = q.1 ||
-    lv.all fun l => l = 0 || uniqueName q.1 l ≠ q0 inp p) &&
+    lv.all fun l => l = 0 || l > pathDepth q.1 || uniqueName q.1 l ≠ q0 inp p) &&
   -- D: everything that can become a qualifier is a usable identifier
   (allCands inp).all validName
 
